@@ -61,6 +61,7 @@ def _close(a, b, rt=RT):
 # =========================================================================== alphabets
 
 MACH = [0.0, 0.1, 0.2, 0.3, 0.4, 0.5, 0.6, 0.7, 0.8, 0.9, 0.95]
+MACH_QUICK = [0.0, 0.3, 0.6, 0.8, 0.95]
 SCALES = [1.0, 2.0, 0.5]
 # interior offsets [m] added to the regular altitude grid, one table entry per seed
 ALT_OFFSETS = [0.0, 37.0, 83.5, 121.25, 160.0, 199.0, 226.5, 249.0]
@@ -207,6 +208,7 @@ def sublattices(tier, seed):
     isa_alts = altitudes(tier, seed)
     alts = altitudes(tier, seed)
     cert = list(CERT_ALL) if tier == 'thorough' else CERT_QUICK
+    mach = MACH if tier == 'thorough' else MACH_QUICK
     subs = []
     forms = ['scalar', 'array1', 'mixed']
     subs.append(
@@ -222,11 +224,11 @@ def sublattices(tier, seed):
             'axes': {
                 'cs': cert,
                 'h': alts,
-                'm': MACH,
+                'm': mach,
                 's': SCALES,
                 'fuel_flow(shipped)': flow_alphabet(CERT['shipped']) + ['FFM2(' + repr(x) + ')' for x in inflight_flows(CERT['shipped'])],
             },
-            'cases': [{'k': 'chain', 'cs': c, 'h': h, 'm': m, 's': s} for c in cert for h in alts for m in MACH for s in SCALES],
+            'cases': [{'k': 'chain', 'cs': c, 'h': h, 'm': m, 's': s} for c in cert for h in alts for m in mach for s in SCALES],
         }
     )
     subs.append(
@@ -261,8 +263,8 @@ def sublattices(tier, seed):
     subs.append(
         {
             'name': 'meem: engine variant x altitude x Mach x scale',
-            'axes': {'edb': MEEM_VARIANTS, 'h': malts, 'm': MACH, 's': SCALES},
-            'cases': [{'k': 'meem', 'edb': v, 'h': h, 'm': m, 's': s} for v in MEEM_VARIANTS for h in malts for m in MACH for s in SCALES],
+            'axes': {'edb': MEEM_VARIANTS, 'h': malts, 'm': mach, 's': SCALES},
+            'cases': [{'k': 'meem', 'edb': v, 'h': h, 'm': m, 's': s} for v in MEEM_VARIANTS for h in malts for m in mach for s in SCALES],
         }
     )
     return subs
